@@ -103,9 +103,11 @@ add(["h_tlfu::r2l3::"], ["C11", "C05", "C16"], "quick", 3,
     "TinyLFU<u64, identity KeyHasher>, no_std sketch: arbitrary state with 4 counters per row, 512-bit doorkeeper, "
     "1..=3 probes, samples and w full usize range, hashes full u64; one operation; single-key history of 4 operations",
     mem=6, quick_for=["C11"])
-add(["h_tlfu::r4l7::"], ["C11", "C05", "C16"], "thorough", 3,
-    "TinyLFU: arbitrary state with 8 counters per row, 512-bit doorkeeper, 1..=7 probes; single-key history of 6 operations",
-    mem=10, tmul=2)
+add(["h_tlfu::r4l7::compare", "h_tlfu::r4l7::clone_step", "h_tlfu::r4l7::step_try_reset", "h_tlfu::r4l7::step_clear"],
+    ["C11", "C05", "C16"], "thorough", 3,
+    "TinyLFU: arbitrary state with 8 counters per row, 512-bit doorkeeper, 1..=7 probes: comparisons, clone, try_reset, clear "
+    "(the increment / single-key / batch harnesses at this size exceeded 80 CPU-minutes each; they are decided at 4 counters "
+    "per row only)", mem=10, tmul=2)
 add(["h_sampled::n0::", "h_sampled::n1::", "h_sampled::n2::step", "h_sampled::n2::fill_l1"], ["C20", "C05"], "quick", 4,
     "SampledLFU<u64>: tracker with <= 2 tracked hashes (distinct, symbolic), costs |c| < 2^40, one operation with "
     "symbolic hash/cost; fill_sample with input length <= 2 and every sample size up to len+2", mem=6)
@@ -212,9 +214,11 @@ add(["h_tlfu::r2l3::compare", "h_tlfu::r2l3::step_increment_hashed", "h_tlfu::r2
     ["C11", "C05"], "quick", 3,
     "std build (count_min_sketch_std, the four row seeds symbolic): TinyLFU arbitrary state with 4 counters per row, one "
     "operation; comparisons", mem=6, cfg="std")
-add(["h_tlfu::r2l3::step_increment", "h_tlfu::r2l3::single_key", "h_tlfu::r2l3::batch", "h_tlfu::r2l3::clone_step", "h_tlfu::r4l7::"],
+add(["h_tlfu::r2l3::step_increment", "h_tlfu::r2l3::single_key", "h_tlfu::r2l3::batch", "h_tlfu::r2l3::clone_step",
+     "h_tlfu::r4l7::compare"],
     ["C11", "C05", "C16"], "thorough", 3,
-    "std build: remaining TinyLFU harnesses at 4 counters per row and all of them at 8 counters per row", mem=10, cfg="std", tmul=2)
+    "std build: remaining TinyLFU harnesses at 4 counters per row; comparisons at 8 counters per row",
+    mem=10, cfg="std", tmul=2)
 
 # ---- C17 differential family ---------------------------------------------------------------------
 add(["h_misc::order::purge_c2n2", "h_misc::order::resize_c2n2"], ["C17"], "quick", 4,
